@@ -500,6 +500,22 @@ def c01_7(ctx, r):
             r.check(bool(rem) and bool(okr), f"{fn.short}: all recorded indices are popped (in reverse order) after the scan", key_of(fn, "pop recorded indices"), fn.loc(lp),
                     "recorded indices are not all removed from _queued_jobs after the scan (or not in reverse order, which removes the wrong entries)",
                     "never starts a job's command more than once")
+            # init, scan and removal belong together: same statement block, in this order (indices of one scan are
+            # removed before the next scan shifts the positions they refer to)
+            def blk_of(st):
+                par = ctx.parents(fn).get(id(st))
+                return next((getattr(par, f) for f in ("body", "orelse", "finalbody") if isinstance(getattr(par, f, None), list) and any(x is st for x in getattr(par, f))), None)
+
+            inits = [cfg.nodes[d].stmt for n2, _ in recs for d in ctx.rd(fn).reaching(n2, lst) if isinstance(ctx.rd(fn).defs_at[d].get(lst), ast.List)]
+            sib = bool(rem) and bool(inits) and all(blk_of(i) is blk_of(lp) for i in inits) and blk_of(rem[0]) is blk_of(lp)
+            if sib:
+                b = blk_of(lp)
+                order = [next(i for i, x in enumerate(b) if x is st) for st in (inits[0], lp, rem[0])]
+                sib = order == sorted(order)
+            r.check(sib, f"{fn.short}: the index list is initialised, filled and emptied within one scan (same block, in order)", key_of(fn, "index list spans several scans"), fn.loc(lp),
+                    f"`{lst}` is not initialised / popped in the same block as the scan that fills it: indices recorded by different scans are popped together, in an order that is not descending, "
+                    "so the wrong entries leave the queue (a canceled entry stays queued with no blockers and is started; another entry is dropped)",
+                    "never starts a job's command more than once / a canceled job is never started")
             # the list of indices is fresh for each scan
             uds = {ctx.src(ctx.rd(fn).defs_at[d].get(lst)) for n2, _ in recs for d in ctx.rd(fn).reaching(n2, lst) if isinstance(ctx.rd(fn).defs_at[d].get(lst), ast.AST)}
             r.check(uds == {"[]"}, f"{fn.short}: index list starts empty for each scan", key_of(fn, "index list init"), fn.loc(lp), f"{lst} is initialised from {sorted(uds)}")
